@@ -303,6 +303,28 @@ def case_update(ctx, inp):
             if not (isinstance(got, type(v)) and got == v):
                 ctx.fail("update(priority='new'): a value of `new` is not readable from the result",
                          observed=[path, repr(got)], expected=v)
+    if prio == "new-defaults" and isinstance(dflt, dict) and not _has_both(new0) and not _has_both(old0):
+        # documented: "Only if a value in old matches the current default, it will be updated with new" (top level)
+        for k, v in new0.items():
+            if isinstance(v, dict):
+                continue
+            kk = dc.canonical_name(k, old0)
+            if kk not in old0:
+                want = v
+            elif isinstance(old0[kk], dict):
+                continue
+            elif dflt and kk in dflt and dflt[kk] == old0[kk]:
+                want = v
+            else:
+                want = old0[kk]
+            later = [k2 for k2 in list(new0)[list(new0).index(k) + 1:] if dc.canonical_name(k2, old0) == kk or k2 == kk]
+            if later:
+                continue
+            got = res.get(kk, KeyError)
+            if not (type(got) is type(want) and got == want):
+                ctx.fail("update(priority='new-defaults'): value neither kept nor replaced as documented",
+                         observed=[k, repr(got)], expected=repr(want))
+        ctx.branch("update-new-defaults-oracle")
     if prio == "old" and not _has_both(new0) and not _has_both(old0):
         for path, v in _leaf_paths(old0):
             shadow = _raw(new0, path[:1])  # a mapping in `new` may legitimately replace a scalar of `old`
